@@ -26,7 +26,7 @@ import xml.etree.ElementTree as ET
 
 RESP_OK, RESP_ERR, RESP_HANG = 0, 1, 2
 BUS_TIMEOUT = 96          # SoC bus time-out (cycles) used for every SoC built here
-HANG_CYCLES = 400         # the master gives up after this many cycles without an answer
+HANG_CYCLES = 250         # the master gives up after this many cycles without an answer
 BLOCK = 0x10000
 
 
@@ -229,14 +229,17 @@ def build_soc(cfg):
 # --------------------------------------------------------------------------------- publishing
 def publish(b, scratch):
     """run the real Builder's export steps (no toolchain, no gateware) -> dict of file texts"""
+    import contextlib
+    import io
     from litex.soc.integration.builder import Builder
     out = tempfile.mkdtemp(prefix="pub", dir=scratch)
     try:
         bld = Builder(b.soc, output_dir=out, compile_software=False, compile_gateware=False,
                       csr_json=os.path.join(out, "csr.json"), csr_csv=os.path.join(out, "csr.csv"),
                       csr_svd=os.path.join(out, "soc.svd"))
-        bld._generate_includes(with_bios=False)
-        bld._generate_csr_map()
+        with contextlib.redirect_stdout(io.StringIO()):      # the SVD exporter prints remarks about memories
+            bld._generate_includes(with_bios=False)
+            bld._generate_csr_map()
         gen = bld.generated_dir
         texts = {}
         for key, path in (("csr_h", os.path.join(gen, "csr.h")), ("soc_h", os.path.join(gen, "soc.h")),
@@ -330,13 +333,16 @@ def parse_csr_header(text):
 
 
 def parse_soc_header(text):
-    res = {}
+    """-> (defines {name: value text or None}, access functions {name: returned text})"""
+    res, fns = {}, {}
     for m in re.finditer(r"(?m)^#define (\w+)(?: (.*))?$", text):
         name, val = m.group(1), m.group(2)
         if name == "__GENERATED_SOC_H":
             continue
         res[name.lower()] = val
-    return res
+    for m in re.finditer(r"(?m)^static inline (?:int|const char \*) (\w+)_read\(void\) \{\n\treturn (.*);\n\}$", text):
+        fns[m.group(1).lower()] = m.group(2)
+    return res, fns
 
 
 def parse_mem_header(text):
@@ -396,8 +402,9 @@ class Driver:
     def __init__(self, std, master, dw):
         self.std, self.m, self.dw = std, master, dw
         self.nb = dw // 8
-        self.dead = False
-        self.cycles = 0
+        self.dead = False          # AXI: five accesses in a row got no answer: the bus is not used any more
+        self.hangs = 0             # accesses without an answer so far
+        self.streak = 0
 
     def access(self, we, addr, data=0, size=4):
         if self.dead:
@@ -413,8 +420,27 @@ class Driver:
         else:
             resp, rd = yield from self._axi(we, addr - lane, wdata, sel, self.nb)
         if resp == RESP_HANG:
-            self.dead = True
+            # give up this request (drop every valid / cyc), let the interconnect drain, try to go on
+            self.hangs += 1
+            self.streak += 1
+            if self.streak >= 5 and self.std != "wishbone":      # a Wishbone master gives up cleanly (drops cyc)
+                self.dead = True
+            yield from self._abandon()
+        else:
+            self.streak = 0
         return resp, (rd >> (8 * lane)) & ((1 << (8 * size)) - 1)
+
+    def _abandon(self):
+        m = self.m
+        if self.std == "wishbone":
+            yield m.cyc.eq(0)
+            yield m.stb.eq(0)
+            yield m.we.eq(0)
+        else:
+            for ch in (m.aw, m.w, m.ar):
+                yield ch.valid.eq(0)
+        for _ in range(24):
+            yield
 
     def _wait(self, sig):
         n = 0
@@ -583,7 +609,10 @@ def experiment(cfg, scratch, engine="compiled"):
     soc = b.soc
     texts = publish(b, scratch)
     hdr = parse_csr_header(texts["csr_h"])
-    soch = parse_soc_header(texts["soc_h"])
+    soch, sochfn = parse_soc_header(texts["soc_h"])
+    from litex.soc.integration import export as _export
+    ld = {m.group(1): (int(m.group(2), 16), int(m.group(3), 16)) for m in re.finditer(
+        r"(\w+) : ORIGIN = (0x[0-9a-fA-F]+), LENGTH = (0x[0-9a-fA-F]+)", _export.get_linker_regions(soc.mem_regions))}
     memh, memtab = parse_mem_header(texts["mem_h"])
     js = json.loads(texts["json"])
     csv = parse_csv(texts["csv"])
@@ -622,6 +651,7 @@ def experiment(cfg, scratch, engine="compiled"):
     for n in names:
         c = hwregs.get(n)
         r = {"name": n, "hw": 1 if c is not None else 0, "kind": _kind(c) if c is not None else "none",
+             "filler": 1 if re.search(r"_reserved\d+$", n) else 0,
              "size": c.size if c is not None else 0, "own": 1 if n in own else 0, "bw": cdw,
              "atomic": int(bool(getattr(c, "atomic_write", False))),
              "a": {"h": A(hdr["regs"][n]["addr"]) if n in hdr["regs"] else A(None),
@@ -634,7 +664,7 @@ def experiment(cfg, scratch, engine="compiled"):
                     "csv": csv["csr_register"][n][2] if n in csv["csr_register"] else ""},
              "svd": sorted(svdwords.get(n, [])),
              "W": 0, "racc": [], "wacc": [], "hasw": 0,
-             "v": [], "wops": [], "before": [], "after": [], "changed": [], "wdone": 0,
+             "want": [], "v": [], "wops": [], "before": [], "after": [], "changed": [], "wdone": 0,
              "rops": [], "truth": [], "rdone": 0, "flds": [], "skip": 0}
         if n in hdr["racc"]:
             r["W"], r["racc"] = hdr["racc"][n]
@@ -645,6 +675,8 @@ def experiment(cfg, scratch, engine="compiled"):
                 raise ParseError("read and write accessors of %s use different C types" % n)
         if c is not None and hasattr(c, "fields"):
             for f in c.fields.fields:
+                if f.pulse:
+                    continue          # high for one cycle only: its level says nothing about the macros
                 key = n + "_" + f.name
                 po, ps = hdr["fields"].get(key, (-1, -1))
                 r["flds"].append({"name": f.name, "off": po, "size": ps, "sig": []})
@@ -691,12 +723,14 @@ def experiment(cfg, scratch, engine="compiled"):
                       "tab": A(memtab[n][0]) if n in memtab else A(None),
                       "json": A(js["memories"][n]["base"]) if n in js["memories"] else A(None),
                       "csv": A(int(csv["memory_region"][n][0], 16)) if n in csv["memory_region"] else A(None),
-                      "svd": A(svd["mems"][n][0]) if n in svd["mems"] else A(None)},
+                      "svd": A(svd["mems"][n][0]) if n in svd["mems"] else A(None),
+                      "ld": A(ld[n][0]) if n in ld else A(None)},
              "size": {"memh": A(memh[n][1]) if n in memh else A(None),
                       "tab": A(memtab[n][1]) if n in memtab else A(None),
                       "json": A(js["memories"][n]["size"]) if n in js["memories"] else A(None),
                       "csv": A(int(csv["memory_region"][n][1])) if n in csv["memory_region"] else A(None),
-                      "svd": A(svd["mems"][n][1]) if n in svd["mems"] else A(None)},
+                      "svd": A(svd["mems"][n][1]) if n in svd["mems"] else A(None),
+                      "ld": A(ld[n][1]) if n in ld else A(None)},
              "probes": []}
         g["_mem"] = mem
         regions.append(g)
@@ -731,6 +765,7 @@ def experiment(cfg, scratch, engine="compiled"):
         return str(x).strip('"').lower()
     for n in cnames:
         consts.append({"name": n, "v": {"soch": _s(soch.get(n)) if n in soch else "<absent>",
+                                        "sochfn": _s(sochfn.get(n)) if n in sochfn else "<absent>",
                                         "json": _s(js["constants"].get(n)) if n in js["constants"] else "<absent>",
                                         "csv": _s(csv["constant"][n][0]) if n in csv["constant"] else "<absent>",
                                         "svd": _s(svd["consts"].get(n)) if n in svd["consts"] else "<absent>"}})
@@ -844,7 +879,9 @@ def experiment(cfg, scratch, engine="compiled"):
             W = r["W"] or 4 * max(1, r["nw"]["h"])
             before = yield from peek_watch()
             cur = before[r["wid"] - 1]
-            v = _distinct_value(rnd, c.size, avoid=cur)
+            want = _distinct_value(rnd, c.size, avoid=cur)
+            r["want"] = to_bytes(want, nbytes_of(c.size))
+            v = want & ((1 << (8 * W)) - 1)          # the argument of <reg>_write(): converted to its C type
             r["v"] = to_bytes(v, W)
             r["before"] = to_bytes(cur, nbytes_of(c.size))
             for shift, addr_a in ops:
@@ -859,7 +896,6 @@ def experiment(cfg, scratch, engine="compiled"):
             for f in r["flds"]:
                 sig = getattr(c.fields, f["name"])
                 f["sig"] = to_bytes((yield sig), nbytes_of(len(sig)))
-                f["hwoff"] = -1
         # reads
         for r in regs:
             c = hwregs.get(r["name"])
@@ -948,12 +984,16 @@ def experiment(cfg, scratch, engine="compiled"):
                             yield s.pending.eq(0)
                 yield from settle(3)
         # memory regions: just outside (writes; may hang on interconnects without a time-out: done last)
+        hangs_before = drv.hangs
         for g in regions:
             if g["base"]["memh"] == A(None) or g["kind"] == "none":
                 continue
             base, size = unA(g["base"]["memh"]), unA(g["size"]["memh"])
             for which, addr in (("below", base - 4), ("above", base + size)):
-                if addr < 0 or addr > 0xfffffffc or drv.dead:
+                # after an access without an answer only Wishbone masters can give up cleanly (drop cyc): on
+                # AXI nothing that follows would be trustworthy
+                if addr < 0 or addr > 0xfffffffc or drv.dead or hangs_before or \
+                        (drv.hangs and cfg["std"] != "wishbone"):
                     continue
                 p = {"which": which, "addr": A(addr), "we": 1, "data": [], "resp": -1, "cell": [],
                      "changed": [], "rd": [], "rresp": -1, "own": -1}
